@@ -61,15 +61,23 @@ func main() {
 	if *modcache == "" {
 		*modcache = "/root/go/pkg/mod"
 	}
-	os.RemoveAll(*out)
 	if err := os.MkdirAll(*out, 0o755); err != nil {
 		die("%v", err)
 	}
 	replace := map[string]string{}
+	// files are only rewritten when their content changes (atomic rename), so that
+	// concurrent check runs never see a half-written overlay
 	write := func(rel string, data []byte) string {
 		p := filepath.Join(*out, rel)
+		if old, err := os.ReadFile(p); err == nil && bytes.Equal(old, data) {
+			return p
+		}
 		os.MkdirAll(filepath.Dir(p), 0o755)
-		if err := os.WriteFile(p, data, 0o644); err != nil {
+		tmp := fmt.Sprintf("%s.%d.tmp", p, os.Getpid())
+		if err := os.WriteFile(tmp, data, 0o644); err != nil {
+			die("%v", err)
+		}
+		if err := os.Rename(tmp, p); err != nil {
 			die("%v", err)
 		}
 		return p
